@@ -388,6 +388,81 @@ def rule_IDX(ctx):
     return r
 
 
+def rule_TRAIL(ctx):
+    """An Array's data may end in trailing bits (fewer than one item), so "the end of the data" is not "the end of the last
+    item".  A method that addresses self.data from its end - a negative slice bound, _truncateright, a position computed as
+    len(self.data) - k - is right only if the offset IS the trailing-bit count (len(self.data) % width) or the method has refused
+    trailing bits beforehand; otherwise it takes the item from the wrong place (and destroys the trailing bits)."""
+    m = ctx.m
+    r = RuleResult('TRAIL', 'Array methods address the data from its end only by the trailing-bit count or after refusing trailing bits')
+    arr = m.classes.get('Array')
+    if arr is None:
+        raise AnalysisError('anchor vanished: class Array')
+
+    def is_data(e, aliases):
+        return ast.unparse(e) == 'self.data' or (isinstance(e, ast.Name) and e.id in aliases)
+
+    def is_len_data(e, aliases):
+        return isinstance(e, ast.Call) and isinstance(e.func, ast.Name) and e.func.id == 'len' and len(e.args) == 1 and is_data(e.args[0], aliases)
+    n = 0
+    for name, f in sorted(arr.methods.items()):
+        aliases = {t.id for x in own_walk(f.node) if isinstance(x, ast.Assign) and ast.unparse(x.value) == 'self.data' for t in x.targets if isinstance(t, ast.Name)}
+        stores = {}
+        for x in own_walk(f.node):
+            if isinstance(x, (ast.Assign, ast.AugAssign, ast.For)):
+                for t in (x.targets if isinstance(x, ast.Assign) else [x.target]):
+                    for y in ast.walk(t):
+                        if isinstance(y, ast.Name):
+                            stores[y.id] = stores.get(y.id, 0) + 1
+        al = {x.targets[0].id: x.value for x in own_walk(f.node) if isinstance(x, ast.Assign) and len(x.targets) == 1 and isinstance(x.targets[0], ast.Name)
+              and stores.get(x.targets[0].id) == 1 and x.targets[0].id not in f.params()
+              and isinstance(x.value, ast.BinOp) and isinstance(x.value.op, ast.Mod) and is_len_data(x.value.left, aliases)}
+
+        def is_trailing(e):
+            e = G.expand(f, e, al)
+            return isinstance(e, ast.BinOp) and isinstance(e.op, ast.Mod) and is_len_data(e.left, aliases)
+        refused = False
+        for st in G.body_wo_doc(f):
+            if isinstance(st, ast.If) and G.always_raises(st.body):
+                for d in G.disjuncts(G.expand(f, st.test, al)):
+                    if is_trailing(G.canon_truth(d)):
+                        refused = True
+        sites = []
+        for x in own_walk(f.node):
+            if isinstance(x, ast.Subscript) and is_data(x.value, aliases) and isinstance(x.slice, ast.Slice):
+                for b in (x.slice.lower, x.slice.upper):
+                    if isinstance(b, ast.UnaryOp) and isinstance(b.op, ast.USub):
+                        sites.append((x, b.operand))
+                    elif isinstance(b, ast.Constant) and isinstance(b.value, int) and b.value < 0:
+                        sites.append((x, None))
+            if isinstance(x, ast.Subscript) and is_data(x.value, aliases) and not isinstance(x.slice, ast.Slice):
+                b = x.slice
+                if (isinstance(b, ast.UnaryOp) and isinstance(b.op, ast.USub)) or (isinstance(b, ast.Constant) and isinstance(b.value, int) and b.value < 0):
+                    sites.append((x, None))
+            if isinstance(x, ast.Call) and isinstance(x.func, ast.Attribute) and x.func.attr in ('_truncateright', 'pop') and is_data(x.func.value, aliases):
+                sites.append((x, x.args[0] if x.args and x.func.attr == '_truncateright' else None))
+            # a position counted back from the end: len(self.data) - k used as a slice bound / position of self.data
+            if isinstance(x, ast.Assign) and len(x.targets) == 1 and isinstance(x.targets[0], ast.Name) and isinstance(x.value, ast.BinOp) \
+                    and isinstance(x.value.op, ast.Sub) and any(is_len_data(y, aliases) for y in ast.walk(x.value.left)) and not is_trailing(x.value):
+                nm = x.targets[0].id
+                used = any(isinstance(y, ast.Subscript) and is_data(y.value, aliases) and any(isinstance(z, ast.Name) and z.id == nm for z in ast.walk(y.slice))
+                           for y in own_walk(f.node))
+                if used:
+                    sites.append((x, None))
+        for x, off in sites:
+            n += 1
+            if off is not None and is_trailing(off):
+                r.ok(f'{f.key}:{norm(x)}', {'instance': f.key, 'access': norm(x)[:60], 'verdict': 'offset is the trailing-bit count'})
+            elif refused:
+                r.ok(f'{f.key}:{norm(x)}', {'instance': f.key, 'access': norm(x)[:60], 'verdict': 'trailing bits refused beforehand'})
+            else:
+                r.fail(f.key, x, f"Array.{name} addresses its data from the END ({norm(x)[:60]}): with trailing bits (a data length that is not a whole "
+                       'number of items) that is not where the last item is - the wrong bits are taken and the trailing bits are destroyed', loc=f.loc(x))
+    if n < 4:
+        raise AnalysisError(f'only {n} end-relative accesses of Array data found (floor 4)')
+    return r
+
+
 def rule_TY1(ctx):
     """math.* is only applied to values that are numbers on every path (element values may be str, bytes or Bits)."""
     m = ctx.m
